@@ -17,6 +17,7 @@ os.environ.setdefault('ML_PIPELINE_ENGINE_VERIF', '1')
 from rv import materialize, rt, vloop  # noqa: E402
 
 _state = {}
+COUNTERS = {}
 
 
 class _DummyManager:
@@ -38,6 +39,15 @@ def setup_engine():
     threads_pool_registry.register_pool_executor(tex)
     process_pool_registry.register_pool_executor(pex)
     process_pool_registry.register_manager(_DummyManager())
+    # shadow counter (DESIGN 3.5): wait_for_event is only reached on the duplicate-request path of
+    # _execute_node ("Stop new execution"); looked up through the class at call time
+    from ml_pipeline_engine.dag import manager as _mgr
+    _orig_wfe = _mgr.DAGConcurrentManagerLock.wait_for_event
+
+    async def _counting_wfe(self, event_name):
+        COUNTERS['dup_request'] = COUNTERS.get('dup_request', 0) + 1
+        return await _orig_wfe(self, event_name)
+    _mgr.DAGConcurrentManagerLock.wait_for_event = _counting_wfe
     _state.update(PipelineChart=PipelineChart, build_dag=build_dag, tex=tex, pex=pex,
                   store_cls=rt.make_store_class())
     # deterministic uuid4 (unnamed switch ids, default pipeline ids)
